@@ -62,6 +62,9 @@ func genStep(t *rapid.T) Step {
 		s.Op = "Delete"
 		s.Rel = rapid.SampledFrom(rels).Draw(t, "rel")
 		s.Arg = rapid.IntRange(1, 6000).Draw(t, "arg")
+		if rapid.IntRange(0, 3).Draw(t, "swap") == 0 {
+			s.Op, s.Rel = "SwapParked", rapid.SampledFrom([]string{"parked", "parked", "last"}).Draw(t, "swaprel")
+		}
 	case 14, 15, 16:
 		s.Op = "DeleteRange"
 		s.Rel = rapid.SampledFrom([]string{"parked", "parked", "last", "beyond"}).Draw(t, "rel")
@@ -70,6 +73,10 @@ func genStep(t *rapid.T) Step {
 		s.Op = "InsertRun"
 		s.Rel = rapid.SampledFrom([]string{"parked", "parked", "last", "gap"}).Draw(t, "rel")
 		s.N = rapid.IntRange(16, 40).Draw(t, "n")
+		if rapid.IntRange(0, 2).Draw(t, "other") == 0 {
+			s.Op = "Other"
+			s.Arg = rapid.IntRange(0, 1).Draw(t, "otherarg")
+		}
 	default:
 		if rapid.IntRange(0, 2).Draw(t, "churn") == 0 {
 			s.Op = "Churn"
@@ -174,6 +181,12 @@ type exec[K any] struct {
 
 	nontrivial bool
 	maxHeight  int
+
+	// other: a second collection of the same type (built lazily by the step "Other"): it starts out with the
+	// same keys as the collection under test and is then mutated on its own. Two collections have nothing to
+	// do with each other - whatever one of them recycles, the other's iterators do not see.
+	other      tk.Coll[K]
+	otherCalls int
 }
 
 func (e *exec[K]) viol(kind, format string, args ...any) error {
@@ -520,6 +533,38 @@ func (e *exec[K]) mutate(st Step) error {
 				e.put(x)
 			}
 		}
+	case "SwapParked":
+		// the key at the position of interest leaves and a neighbour that was absent takes its place (the same
+		// slot of the same node, as likely as not): two changes that may each be "local" and cancel out in
+		// whatever a parked iterator uses to notice changes
+		e.del(k)
+		for _, x := range []int{k + 1, k - 1, k + 2} {
+			if _, present := e.m.Find(x); !present && x >= 1 {
+				e.put(x)
+				break
+			}
+		}
+	case "Other":
+		if e.other == nil {
+			e.other = tk.New(e.kk, e.cfg, &e.otherCalls)
+			for j := 0; j < e.m.Len(); j++ {
+				e.other.Put(e.kk.Mk(e.m.Es[j].Reps[0]), &tk.Val{ID: -1})
+			}
+		}
+		// splits around the position of interest (fresh nodes are needed), then merges (nodes become free)
+		for j := 0; j < st.N; j++ {
+			if x := k - st.N/2 + j; x >= 1 {
+				e.other.Put(e.kk.Mk(x), &tk.Val{ID: -2})
+			}
+		}
+		if st.Arg%2 == 0 {
+			for j := 0; j < st.N; j++ {
+				if x := k - st.N/2 + j; x >= 1 && j%3 != 0 {
+					e.other.Delete(e.kk.Mk(x))
+				}
+			}
+		}
+		e.out.Label("other-collection-mutated")
 	case "Churn":
 		// 256 or 65536 structural changes, minus up to three (the steps around it add their own): a far-away
 		// key is put and deleted over and over. A staleness test that compares only the low bits of the
